@@ -9,8 +9,10 @@ import warnings
 import vlib
 from vlib import Finding, enc, dec
 
-LEAN_MODULES = ["FeedVerif.Props.C12", "FeedVerif.Model.DoctypeDriver"]
-CORR_OBLIGATIONS = ["M-doctype.replaceDoctype ~ sanitizer.replace_doctype (version, rewritten bytes, entities dict) on generated prologs"]
+LEAN_MODULES = ["FeedVerif.Props.C12", "FeedVerif.Model.DoctypeDriver", "FeedVerif.Model.MixinDriver"]
+CORR_OBLIGATIONS = ["M-doctype.replaceDoctype ~ sanitizer.replace_doctype (version, rewritten bytes, entities dict) on generated prologs",
+                    "M-mixin (stage 6: handle_entityref / handle_charref with the real self.entities lookups as recorded oracles) ~ the real loose handler machine on documents whose "
+                    "internal subset declares entities that the content references: state after every event, whole result"]
 TRUSTED = ["Lean model FeedVerif/Model/Doctype.lean: hand translation of RE_ENTITY_PATTERN / RE_DOCTYPE_PATTERN / RE_SAFE_ENTITY_PATTERN and of replace_doctype",
            "expat honours feature_external_ges = 0 and expands only what the (rebuilt) DOCTYPE declares (library)"]
 ASSUMPTIONS = ["audit hooks see every file / socket / subprocess access made from Python-level code (C extensions that bypass auditing are not observed)"]
@@ -175,8 +177,31 @@ def correspondence(ctx):
         g2 = canon_model(g)
         if g2 != e and len(dis) < 20:
             dis.append({"input": m, "model": g2[:300], "impl": e[:300]})
-    return {"cases": len(lines), "distinct": len(set(lines)), "unmodelled": 0, "disagreements": dis, "distribution": dist,
-            "samples": [{"data": datas[10].decode(), "impl": exp[10][:200]}]}
+    res = {"cases": len(lines), "distinct": len(set(lines)), "unmodelled": 0, "disagreements": dis, "distribution": dist,
+           "samples": [{"data": datas[10].decode(), "impl": exp[10][:200]}]}
+    # the consumer of the table: the loose back end's reference callbacks (M-mixin stage 6)
+    import mixlib
+    docs = []
+    names = ["me", "co", "x1", "long_name", "amp2"]
+    values = ["plain text", "Tom and Jerry", "<b>markup</b>", "&#233;", "&#38;", "&#x3c;", "&#65;", "", "a very long replacement text " * 3, "&#xyz;", "it's"]
+    refs = ["&%s;", "&%s;", "&amp;", "&lt;b&gt;", "&#38;", "&#60;", "&#65;", "&#x41;", "&nosuch;", "&quot;", "&apos;", "&#34;", "&#x27;", "&%s; and &%s;"]
+    for _ in range(ctx.n(150, 2500)):
+        decl = rng.sample(names, rng.randint(1, 3))
+        subset = "".join('<!ENTITY %s "%s">' % (n_, rng.choice(values).replace('"', "")) for n_ in decl)
+        def txt():
+            r_ = rng.choice(refs)
+            return "t " + (r_ % tuple(rng.choice(decl) for _i in range(r_.count("%s")))) + " u"
+        body = "".join("<%s>%s</%s>" % (el, txt(), el) for el in rng.sample(["title", "description", "guid", "category", "comments", "x:other", "copyright", "link"], rng.randint(1, 4)))
+        docs.append(('<!DOCTYPE rss [%s]><rss version="2.0" xmlns:x="http://unknown.example/"><channel><title>c</title><item>%s</item></channel></rss>' % (subset, body)).encode("utf-8"))
+    r2 = mixlib.corr(ctx, docs, {"content-type": "application/xml; charset=utf-8"}, loose_p=1.0)
+    res["cases"] += r2["cases"]
+    res["distinct"] += r2["distinct"]
+    res["unmodelled"] += r2["unmodelled"]
+    for d_ in r2["disagreements"]:
+        if len(res["disagreements"]) < 20:
+            res["disagreements"].append(dict(d_, which="M-mixin stage 6 (references on the loose back end)"))
+    res["distribution"]["mixin_stage6"] = r2["distribution"]
+    return res
 
 
 def canon_model(g):
@@ -331,6 +356,9 @@ TECHNIQUE = "Lean 4 proof over a hand-translated model of replace_doctype: every
 LEVEL_TEXT = ("Kernel-checked on M-doctype: safeMatch_safe (whatever the SAFE pattern accepts is plain text without & and \" or exactly one &#\\w+; reference), "
               "entities_dict_safe (every entity returned for the loose parser, for EVERY input), rebuilt_only_safe (only SAFE-accepted declarations are re-inserted), "
               "not_xml_identity, and kernel-evaluated layouts (one_line_layout_contained -- the bypass before the fix: commit --, external_and_parameter_entities_dropped). "
-              "Tie: replace_doctype vs model on generated and byte-damaged prologs (version, rewritten bytes, entities).")
+              "On the CONSUMER of the table (M-mixin stage 6, the loose back end's handle_entityref / handle_charref, guarded by source fingerprints): eref_expands_once (a reference to a declared entity "
+              "appends exactly its replacement text -- which is never tokenised again), eref_text_bounded (one reference appends at most max(name, longest replacement) + 2 characters: linear growth), "
+              "cref_text_bounded, ref_events_only_append. Tie: replace_doctype vs model on generated and byte-damaged prologs (version, rewritten bytes, entities); the reference callbacks vs the model on "
+              "documents whose internal subset declares entities that the content references.")
 LEVEL_NOTE = ("Trusted: Lean kernel + standard axioms; hand translation of three regular expressions (validated by correspondence); expat's behaviour on the rebuilt "
               "DOCTYPE and its feature_external_ges switch; the audit hook. 'No I/O' is a runtime property observed by the search, not a theorem.")
